@@ -50,7 +50,13 @@ def case(draw):
         tit = dict(ph=draw(st.sampled_from([2.0, 7.0, 12.5, 13.5])),
                    pka=[[ci, i, draw(st.integers(0, 1400)) / 100.0] for ci, ch in enumerate(desc["chains"])
                         for i, rn in enumerate(ch["seq"]) if rn in ("ASP", "GLU", "HIS", "CYS", "TYR", "LYS", "ARG")])  # fmt: skip
-    return dict(part="opts", kind=kind, desc=desc, ff=ff, base=base, extra=extra, tit=tit)
+    cif = None
+    if kind == "format" and draw(st.integers(0, 3)) == 0:
+        # the same relation on mmCIF input (multi-character chain ids in half of these)
+        cif = dict(multi=draw(st.integers(0, 2)) > 0)
+        for ch in desc["chains"]:
+            ch.pop("altmod", None)
+    return dict(part="opts", kind=kind, desc=desc, ff=ff, base=base, extra=extra, tit=tit, cif=cif)
 
 
 def _fields(ln):
@@ -74,7 +80,16 @@ def check(case):
             c06.PKA[(ch["id"], ch["start"] + i)] = v
         args0 += ["--titration-state-method=propka", f"--with-ph={case['tit']['ph']}"]
         res.label("titration")
-    r0 = pipeline.run(s.text(), args0)
+    in_text, ext = s.text(), "pdb"
+    if case.get("cif"):
+        in_text, cmap = e2e.structure_to_cif(s, case["cif"])
+        ext = "cif"
+        res.label("mmcif-input", "multi-char-chain-ids" if case["cif"]["multi"] else "one-char-chain-ids")
+        if case.get("tit"):
+            for ci, i, v in case["tit"]["pka"]:
+                ch = desc["chains"][ci]
+                c06.PKA[(cmap[ch["id"]], ch["start"] + i)] = v
+    r0 = pipeline.run(in_text, args0, ext=ext)
     res.label(f"kind={kind}", f"ff={ff}", *[o.split("=")[0] for o in extra])
     if not r0.ok:
         res.label("base-run-failed")
@@ -90,7 +105,7 @@ def check(case):
         res.nontrivial = False
         return res
     if kind == "format":
-        r1 = pipeline.run(s.text(), args0 + extra, in_name="in.pdb")
+        r1 = pipeline.run(in_text, args0 + extra, ext=ext)
         if not r1.ok:
             res.bad("C09:option-breaks-run", f"adding {extra} makes the run fail: {r1.exc_text[:100]}")
             return res
